@@ -312,7 +312,7 @@ def main(argv: list[str]) -> int:
         }
     tmp = argv[2] + ".tmp"
     with open(tmp, "w") as f:
-        json.dump(res, f)
+        json.dump(_jsonable(res), f)
     os.replace(tmp, argv[2])
     return 0
 
